@@ -472,7 +472,7 @@ package vegeta
 //@   requires [started-in-the-past] atk.began <= clock(0) && atk.began >= 0
 //@   requires [lock-free-on-entry] !held(&atk.seqmu)
 //@   requires [stop-channel] a.stopch != nil && (closed(a.stopch) <==> done(&a.stopOnce))
-//@   modifies atk.seq
+//@   modifies atk.seq, ghost(lastTs, atk)
 //@   ghost seqAtLock int
 //@   ghost lastTsAtLock int
 //@   ghost sections int
@@ -594,7 +594,7 @@ package vegeta
 //@ func (*jsonTarget).decode
 //@   property C14 C16
 //@   requires [non-nil] t != nil && in != nil
-//@   modifies *t, *in
+//@   modifies *t, *in, ghost(lexleft, in), ghost(lexok, in)
 //@   at store t.Method: assert [key-method] key == "method"
 //@   at store t.URL: assert [key-url] key == "url"
 //@   at store t.Body: assert [key-body] key == "body"
@@ -622,7 +622,7 @@ package vegeta
 //@   requires [target-header-unset] tgt == nil || tgt.Header == nil
 //@   requires [reader-ready] rd.Reader != nil && !held(&rd.Mutex) && bytesleft(rd.Reader) >= 0
 //@   requires [package-initialised] ErrNilTarget != nil && ErrNoTargets != nil && ErrNoMethod != nil && ErrNoURL != nil
-//@   modifies *tgt, *rd.Reader
+//@   modifies *tgt, *rd.Reader, ghost(bytesleft, rd.Reader)
 //@   ghost rerr ref = 0
 //@   ghost lerr ref = 0
 //@   at call ReadBytes: ghost rerr = ref(result1)
@@ -664,7 +664,7 @@ package vegeta
 //@   guarded bufio.Scanner by &mu
 //@   requires [scanner-ready] sc.src != nil && !held(&mu) && scanleft(sc.src) >= 0
 //@   requires [package-initialised] ErrNilTarget != nil && ErrNoTargets != nil && httpMethodChecker != nil
-//@   modifies *tgt, sc.peeked, *sc.src
+//@   modifies *tgt, sc.peeked, *sc.src, ghost(scanleft, sc.src)
 //@   ghost bodyLine bool = false
 //@   at call ReadFile: ghost bodyLine = true
 //@   before call Scan: assert [the-body-line-ends-the-target-nothing-is-read-after-it] !bodyLine
@@ -875,7 +875,7 @@ package vegeta
 //@ func easyjsonBd1621b8DecodeGithubComTsenartVegetaV12Lib
 //@   property C07 C16
 //@   requires [non-nil] in != nil && out != nil
-//@   modifies *out, *in
+//@   modifies *out, *in, ghost(lexleft, in), ghost(lexok, in)
 //@   at store out.Attack: assert [key-attack] key == "attack"
 //@   at store out.Seq: assert [key-seq] key == "seq"
 //@   at store out.Code: assert [key-code] key == "code"
@@ -910,7 +910,7 @@ package vegeta
 //@   property C09 C16
 //@   returns (err)
 //@   requires [non-nil] r != nil && rd != nil
-//@   modifies *r, *rd
+//@   modifies *r, *rd, ghost(bytesleft, rd)
 //@   ghost readFailed bool
 //@   ghost lineComplete bool
 //@   ghost unmarshalled int
